@@ -12,7 +12,7 @@ import vlib
 
 LEVEL_TEXT = ('partial. Lean 4 theorems (exact arithmetic): rescaling by s divides each axis of the pixel scale by exactly s (absent stays absent); '
               'resample refuses exactly planes without / with non-uniform pixel scale, otherwise yields the requested pixel scale, and is '
-              'invariant under the unit of length; arrays get ceil(n*s) samples; the physical extent is preserved to within one new sample; the '
+              'invariant under the unit of length; arrays get ceil(n*s) samples; the physical extent is preserved to within one new sample (per axis for a per-axis pixel scale); the grid overshoots the input sample centres by less than half an input pixel (grid_rim_bounds); the '
               'interpolation grid is uniform with spacing 1/s and maps centre to centre; at s = 1 every output sample is interpolated at its own '
               'integer coordinate, so the operation is the identity for any interpolator reproducing samples there; a constant aperture keeps its '
               'power up to the one-sample rim (n0 n1 a^2 <= P\' <= (n0+1/s)(n1+1/s) a^2) because the amplitude is divided by s; on the regenerated grid (order 0, mode constant) every resampled mask layer '
